@@ -108,7 +108,7 @@ func TestC07(t *testing.T) {
 	m := mon.New(t, "C07")
 	defer m.Done()
 	defer debug.SetGCPercent(debug.SetGCPercent(800)) // millions of tiny short-lived hashes; live heap stays small
-	m.Rule("(a) transparency: kind in {blake2b (every digest size 1..64), blake2s-256, legacy Keccak-256/512}; write history 0..600 bytes (strata: exact multiples of the block size/rate so that a FULL buffered block is marshaled, ±1, short, uniform) in random chunks; at 1..3 points (incl. before any write, at the end and at a full block) a random member of {original, earlier copies} is marshaled and unmarshaled into a fresh hash; all members and a never-marshaled control receive the same later writes; every Sum compared across members, with the control and with the reference digest (h/ref/blake2, h/ref/keccakleg); Keccak also in squeezing direction (Read continuation). (b) corrupt states: for each genuine base state, EVERY byte position set to EVERY value 0..255 (covers magic, h, counters, size, block, offset / rate, sponge, n, direction), the full size×offset (blake) and n×direction, rate×n (Keccak) cross products, every truncation/extension length, random strings; after a nil-error UnmarshalBinary six probe sequences run on fresh copies: Size/BlockSize/Sum; Write(0|1); Write(blocksize); Write(200) Sum Write(200) Sum; Reset Sum Write(200) Sum; Write(bs-1) Write(2) Sum. Any panic is a violation, except the documented 'Write/Sum after Read' panic of a Keccak state whose direction byte says squeezing. One evaluation = one history (a) or one byte string handed to UnmarshalBinary (b).")
+	m.Rule("(a) transparency: kind in {blake2b (every digest size 1..64), blake2s-256, legacy Keccak-256/512}; write history 0..600 bytes (strata: exact multiples of the block size/rate so that a FULL buffered block is marshaled, ±1, short, uniform) in random chunks; at 1..3 points (incl. before any write, at the end and at a full block) a random member of {original, earlier copies} is marshaled and unmarshaled into a fresh hash; all members and a never-marshaled control receive the same later writes; every Sum compared across members, with the control and with the reference digest (h/ref/blake2, h/ref/keccakleg); Keccak also in squeezing direction (Read continuation). (b) corrupt states: for each genuine base state, EVERY structural byte position (magic, counters, size, offset / rate, n, direction) set to EVERY value 0..255, every data byte position (h, block / sponge) set to every value in the thorough tier and to 8 boundary/random values in the quick tier, the full size×offset (blake) and n×direction, rate×n (Keccak) cross products, every truncation/extension length, random strings; after a nil-error UnmarshalBinary six probe sequences run on fresh copies: Size/BlockSize/Sum; Write(0|1); Write(blocksize); Write(200) Sum Write(200) Sum; Reset Sum Write(200) Sum; Write(bs-1) Write(2) Sum. Any panic is a violation, except the documented 'Write/Sum after Read' panic of a Keccak state whose direction byte says squeezing. One evaluation = one history (a) or one byte string handed to UnmarshalBinary (b).")
 	m.Assume("Go runtime panics (index/slice out of range) are the observable for memory-safety of a restored state; h/ref/blake2 and h/ref/keccakleg are validated by their unit tests (RFC/KAT vectors, hashlib cross-checks); field names used in counters/keys are derived from the documented layout magic||h||c||size||block||offset resp. magic||rate||a||n||direction")
 	if err := refb2.SelfTest(); err != nil {
 		m.Inconclusive("reference self-test failed: " + err.Error())
@@ -503,19 +503,33 @@ func c07corrupt(m *mon.M, kinds []*c07kind) {
 			pcs = append(pcs, posCase{bi, p})
 		}
 	}
-	m.Cases("byte-substitution", len(pcs), func(i int64, _ *rand.Rand) {
+	m.Cases("byte-substitution", len(pcs), func(i int64, r *rand.Rand) {
 		pc := pcs[i]
 		b := bases[pc.base]
 		field := b.k.field(len(b.state), pc.pos)
+		// structural bytes (magic, counters, size, offset / rate, n,
+		// direction) get every value in both tiers; pure data bytes (h,
+		// block, sponge) influence no control flow: every value in the
+		// thorough tier, a boundary subset in the quick tier
+		structural := field != "h" && field != "block" && field != "a"
+		cur := b.state[pc.pos]
+		subset := map[byte]bool{0: true, 1: true, 0x7f: true, 0x80: true, 0xff: true, cur ^ 1: true, cur ^ 0x80: true, byte(r.Uint32()): true}
 		for v := 0; v < 256; v++ {
-			if byte(v) == b.state[pc.pos] {
+			if byte(v) == cur {
+				continue
+			}
+			if !structural && m.Quick() && !subset[byte(v)] {
 				continue
 			}
 			s := append([]byte{}, b.state...)
 			s[pc.pos] = byte(v)
 			c07try(m, b.k, b.size, s, fmt.Sprintf("base{%s} with byte %d (%s) := %d", b.desc, pc.pos, field, v))
 		}
-		m.Count(fmt.Sprintf("field_positions_swept:%s:%s", b.k.name, field), 1)
+		if structural || m.Thorough() {
+			m.Count(fmt.Sprintf("field_positions_swept:%s:%s", b.k.name, field), 1)
+		} else {
+			m.Count(fmt.Sprintf("data_positions_sampled:%s:%s", b.k.name, field), 1)
+		}
 		m.Distinct(fmt.Sprintf("b %s field:%s", b.desc, field))
 	})
 	// (2) cross products of the two structural bytes
@@ -653,7 +667,7 @@ func c07corrupt(m *mon.M, kinds []*c07kind) {
 		m.Gate("accepted:"+k.name, 1000, "corrupted "+k.name+" states accepted by UnmarshalBinary and then probed")
 		m.Gate("rejected:"+k.name, 1000, "corrupted "+k.name+" states rejected with an error")
 	}
-	m.Gate("probes_run", 100000, "probe sequences executed on restored states")
+	m.Gate("probes_run", 50000, "probe sequences executed on restored states")
 	m.Gate("length_plus_minus_one", 2*len(kinds), "states one byte short / one byte long")
-	m.Note("the single-byte substitution space (every position x every value of every base state), the structural cross products and the length sweep are enumerated completely in both tiers; random strings and write histories are sampled")
+	m.Note("the single-byte substitution space of the structural fields (every value of every magic/counter/size/offset/rate/n/direction byte of every base state), the structural cross products and the length sweep are enumerated completely in both tiers; data bytes completely only in the thorough tier; random strings and write histories are sampled")
 }
